@@ -513,12 +513,14 @@ Qed.
    restriction to renames within one directory) *)
 Definition quiet (s : fs) (t : sworld) (g : list path) (o : op) : Prop :=
   match o with
-  | Open _ p _ w _ tr _ _ => tr && w = true -> forall f, ~ In (PRename f p) (pending s)
-  | Spit p _ _ => forall f, ~ In (PRename f p) (pending s)
+  | Open _ p r w a tr c n =>
+      is_file t p = true -> tr && w = true -> n = false -> valid_open r w a tr c n = true ->
+      forall f, ~ In (PRename f p) (pending s)
+  | Spit p _ _ => is_file t p = true -> forall f, ~ In (PRename f p) (pending s)
   | WriteAt slot _ data _ | Write slot data _ =>
-      forall h, sget (shs t) slot = Some h -> data <> [] -> forall f, ~ In (PRename f (spath h)) (pending s)
+      forall h, sget (shs t) slot = Some h -> sw h = true -> data <> [] -> forall f, ~ In (PRename f (spath h)) (pending s)
   | SetLen slot _ _ =>
-      forall h, sget (shs t) slot = Some h -> forall f, ~ In (PRename f (spath h)) (pending s)
+      forall h, sget (shs t) slot = Some h -> sw h = true -> forall f, ~ In (PRename f (spath h)) (pending s)
   | Mkdir p => forall f r, In (PRename f r) (pending s) -> mem_path p g = false
   | Rmdir p => forall f r, In (PRename f r) (pending s) -> child_of r p = false
   | SyncDir p => forall f r, In (PRename f r) (pending s) -> child_of f p = child_of r p
@@ -589,7 +591,7 @@ Proof.
         -- cbn [wfs]. apply InvF_shs.
            change (InvF (push s (PSetLen p 0)) (set_inode (set_shs t (sdel (shs t) slot)) i []) g).
            apply InvF_trunc; [apply InvF_shs; exact HF|exact En|].
-           apply Hqt. exact Htw.
+           exact (Hqt Hf Htw eq_refl eq_refl).
         -- cbn [wfs]. apply InvF_shs. apply InvF_shs. exact HF.
       * cbn [whs shs set_shs set_inode]. destruct tr; cbn [shs set_shs set_inode];
           (apply HRel_set; [exact HH|repeat split]).
@@ -657,7 +659,7 @@ Proof.
     pose proof (not_stale t slot sh Hs Hcl) as Hn.
     pose proof Hrel as (Hp & Hr & Hw & Ha & Hpos). rewrite <- Hw.
     destruct (hw h) eqn:Ehw; cbn [negb].
-    + destruct (write_at_refines s t g h sh (N.to_nat off) data coin HF Hrel Hn Ehw (Hqt sh Hs)) as [A B].
+    + destruct (write_at_refines s t g h sh (N.to_nat off) data coin HF Hrel Hn Ehw (Hqt sh Hs (eq_sym Hw))) as [A B].
       destruct (write_at s h (N.to_nat off) data coin) as [s1 [k|e]]; cbn [fst snd] in *; [|discriminate].
       inversion B; subst k. cbn [fst snd wfs whs with_fs].
       split; [split; [exact A|exact HH]|reflexivity].
@@ -679,7 +681,7 @@ Proof.
     { rewrite Ha, Hpos, Hp. rewrite (InvF_len s t g _ _ HF Hn). reflexivity. }
     rewrite Hoff. set (off := if sa sh then length (iget (inodes t) (sino sh)) else spos sh).
     destruct (hw h) eqn:Ehw; cbn [negb].
-    + destruct (write_at_refines s t g h sh off data coin HF Hrel Hn Ehw (Hqt sh Hs)) as [A B].
+    + destruct (write_at_refines s t g h sh off data coin HF Hrel Hn Ehw (Hqt sh Hs (eq_sym Hw))) as [A B].
       destruct (write_at s h off data coin) as [s1 [k|e]]; cbn [fst snd] in *; [|discriminate].
       inversion B; subst k. cbn [fst snd wfs whs].
       split; [|reflexivity]. split.
@@ -709,8 +711,9 @@ Proof.
     noslot HH slot. rewrite Hh, Hs.
     pose proof (not_stale t slot sh Hs Hcl) as Hn.
     pose proof Hrel as (Hp & Hr & Hw & Ha & Hpos). rewrite <- Hw.
-    destruct (hw h); cbn [negb fst snd wfs whs with_fs].
-    + split; [|reflexivity]. split; [|exact HH]. rewrite Hp.
+    destruct (hw h) eqn:Ehw; cbn [negb fst snd wfs whs with_fs].
+    + pose proof (Hqt sh Hs (eq_sym Hw)) as Hnt.
+      split; [|reflexivity]. split; [|exact HH]. rewrite Hp.
       assert (H1 : InvF (push s (PSetLen (spath sh) (N.to_nat n)))
                         (set_inode t (sino sh) (resize (iget (inodes t) (sino sh)) (N.to_nat n))) g).
       { eapply InvF_push_data; eauto; [cbn; apply path_eqb_refl|cbn; rewrite path_eqb_refl; reflexivity]. }
@@ -901,7 +904,7 @@ Proof.
     assert (Hpar : parent_is_dir t p = true) by (eapply inv_pc; eauto).
     assert (Hf : is_file t p = true) by (unfold is_file; rewrite En; reflexivity).
     rewrite Hpar, Hf. cbn [negb fst snd wfs whs with_fs].
-    specialize (Hwr s t i HF En Hqt).
+    specialize (Hwr s t i HF En (Hqt Hf)).
     destruct data as [|b data]; cbn [fst snd wfs whs with_fs];
       (split; [split; [exact Hwr|exact HH]|reflexivity]).
   - (* new file *)
@@ -913,7 +916,7 @@ Proof.
       set (t1 := {| names := nset (names t) p (EFile (next_ino t));
                     inodes := iset (inodes t) (next_ino t) []; next_ino := next_ino t + 1; shs := shs t |}) in *.
       assert (Hn1 : nget (names t1) p = Some (EFile (next_ino t))) by (cbn [names t1]; rewrite nget_nset, path_eqb_refl; reflexivity).
-      specialize (Hwr _ t1 _ HC Hn1 (not_tgt_push s (CreateFile p) p eq_refl Hqt)).
+      specialize (Hwr _ t1 _ HC Hn1 (not_tgt_push s (CreateFile p) p eq_refl (not_tgt_fresh s t g p HF Hrc Hf))).
       assert (Hfin : InvF (match data with
            | [] => push (push s (CreateFile p)) (PSetLen p 0)
            | _ :: _ => fst (write_at (push (push s (CreateFile p)) (PSetLen p 0))
